@@ -555,7 +555,7 @@ func c13XMLStream(r *gen.Rng, w *c13World, pos []*c13Pos, thorough bool) []*c13R
 	add("xml-markup", "just text")
 	depths := []int{500, 2000}
 	if thorough {
-		depths = append(depths, 12000, 200000)
+		depths = append(depths, 5000)
 	}
 	for _, p := range pos {
 		if p.kind == "cont" && len(p.jpath) == 1 {
